@@ -64,6 +64,31 @@ def _stub_shape(g, o):
             # form B: [[v for v, d in enumerate(col) for _ in range(d)] for col in zip(*jds)]
             col = txt(gen0.target)
             e = v.elt
+            # form C: [list(chain.from_iterable(repeat(v, d) for v, d in enumerate(col))) for col in zip(*jds)]
+            e_c = e
+            while isinstance(e_c, ast.Call) and txt(e_c.func) == "list" and len(e_c.args) == 1:
+                e_c = e_c.args[0]
+            bc_ = match(pat("$cf($g)"), e_c)
+            if bc_ is not None and g.ext(bc_["cf"]) == "itertools.chain.from_iterable" and isinstance(bc_["g"], (ast.GeneratorExp, ast.ListComp)) and len(bc_["g"].generators) == 1:
+                gg = bc_["g"].generators[0]
+                be = match(pat("enumerate($c)"), gg.iter)
+                bes = match(pat("enumerate($c, $s)"), gg.iter)
+                if bes is not None and astx.const_value(bes["s"]) not in (0, None):
+                    o.violated(fn, gg.iter, f"vertex ids are enumerated from {txt(bes['s'])}: vertex N would appear and vertex 0 never")
+                    return
+                if be is not None and txt(be["c"]) == col and isinstance(gg.target, ast.Tuple) and len(gg.target.elts) == 2 and not gg.ifs:
+                    vv, dd = txt(gg.target.elts[0]), txt(gg.target.elts[1])
+                    br = match(pat("$rp($a, $n)"), bc_["g"].elt)
+                    if br is not None and g.ext(br["rp"]) == "itertools.repeat" and txt(br["a"]) == vv and txt(br["n"]) == dd:
+                        o.holds(fn, v, "stubs[k] = chain of repeat(v, d) for (v, d) in enumerate(column k)")
+                        return
+                    if br is not None and g.ext(br["rp"]) == "itertools.repeat" and txt(br["a"]) == vv:
+                        o.violated(fn, bc_["g"].elt, f"vertex v is repeated `{txt(br['n'])}` times instead of its degree {dd}")
+                        return
+                    br2 = match(pat("[$a] * $n"), bc_["g"].elt) or match(pat("($a,) * $n"), bc_["g"].elt)
+                    if br2 is not None and txt(br2["a"]) == vv and txt(br2["n"]) == dd:
+                        o.holds(fn, v, "stubs[k] = chain of [v] * d for (v, d) in enumerate(column k)")
+                        return
             if isinstance(e, ast.ListComp) and len(e.generators) == 2:
                 g1, g2 = e.generators
                 b1 = match(pat("enumerate($c)"), g1.iter)
@@ -265,10 +290,10 @@ def run(ctx):
                 if b is not None:
                     i = txt(b["i"])
                     facts = {
-                        "start 0": tm.compare(rules.term_of(b["lo"]), tm.ZERO),
-                        f"stop len({lst})": tm.compare(rules.term_of(b["stop"]), tm.parse(f"len({lst})")),
-                        f"step {n_}": tm.compare(rules.term_of(b["step"]), tm.sym(n_)),
-                        f"slice width {n_}": tm.compare(tm.sub(rules.term_of(b["hi"]), tm.sym(i)), tm.sym(n_)),
+                        "start 0": tm.compare(rules.term_of(b["lo"], Scope(pf.node)), tm.ZERO),
+                        f"stop len({lst})": tm.compare(rules.term_of(b["stop"], Scope(pf.node)), tm.parse(f"len({lst})")),
+                        f"step {n_}": tm.compare(rules.term_of(b["step"], Scope(pf.node)), tm.sym(n_)),
+                        f"slice width {n_}": tm.compare(tm.sub(rules.term_of(b["hi"], Scope(pf.node)), tm.sym(i)), tm.sym(n_)),
                     }
                     badf = [k for k, v in facts.items() if v == "different"]
                     und = [k for k, v in facts.items() if v == "undecided"]
@@ -390,6 +415,11 @@ def run(ctx):
                             defs = [s for s in kl.body if isinstance(s, (ast.Assign, ast.AnnAssign))
                                     and txt(s.targets[0] if isinstance(s, ast.Assign) else s.target) == arg.id]
                             for d in defs:
+                                dv = d.value
+                                ca_ = match(pat(f"list(itertools.chain.from_iterable({vname}))"), dv) or match(pat(f"list(chain.from_iterable({vname}))"), dv) \
+                                    or match(pat(f"list(itertools.chain(*{vname}))"), dv) or match(pat(f"list(chain(*{vname}))"), dv) or match(pat(f"sum({vname}, [])"), dv)
+                                if ca_ is not None:
+                                    flat_ok = d
                                 if isinstance(d.value, ast.ListComp):
                                     fb = match(pat(f"[$x for $s in {vname} for $x in $s]"), d.value)
                                     if fb is not None:
